@@ -42,10 +42,17 @@ theorem C12_slice_bounded : ∀ (n : Nat) (m : M), sliceSteps n m ≤ n := by
 /-- a suspended context whose wake-up time has not been reached executes nothing in its turn -/
 theorem C12_sleep_not_early (sliceLen : Nat) (c : Ctx) (m : M) (hs : c.suspended = true)
     (ht : m.now < c.wakeup) :
-    (schedOne sliceLen c m).2 = .ok ∧ (schedOne sliceLen c m).1.ctx = c ∧ (schedOne sliceLen c m).1.spawned = [] := by
-  unfold schedOne
-  have : ¬ c.wakeup ≤ m.now := by omega
-  simp [hs, M.readClock, this]
+    ((schedOne sliceLen c m).2 = .ok ∨ (schedOne sliceLen c m).1.exitReq = true) ∧
+      (schedOne sliceLen c m).1.ctx = c ∧ (schedOne sliceLen c m).1.spawned = [] ∧
+      (schedOne sliceLen c m).1.heap = m.heap ∧ (schedOne sliceLen c m).1.nss = m.nss := by
+  have hw : ¬ c.wakeup ≤ m.now := by omega
+  have hlog : ∀ (x : M) (k : Nat), (x.log k).spawned = x.spawned ∧ (x.log k).heap = x.heap ∧ (x.log k).nss = x.nss := by
+    intro x k; unfold M.log; simp only; split <;> exact ⟨rfl, rfl, rfl⟩
+  by_cases h1 : m.maxRuntime = 0
+  · simp [schedOne, hs, M.readClock, hw, h1]
+  · by_cases h2 : m.runStart + m.maxRuntime < m.now
+    · simp [schedOne, hs, M.readClock, hw, h1, h2, hlog]
+    · simp [schedOne, hs, M.readClock, hw, h1, h2]
 
 /-- … and when it is resumed the clock has reached the wake-up time -/
 theorem C12_resume_after_wakeup (sliceLen : Nat) (c : Ctx) (m : M) (hs : c.suspended = true)
@@ -155,6 +162,24 @@ theorem C12_slice_inv : ∀ (n : Nat) (m : M), m.Inv → (slice n m).1.Inv := by
         split
         · next m' heq => rw [heq] at hs; exact ih m' hs
         · next m' r _ heq => rw [heq] at hs; exact hs
+
+/-! ## waitUntil waits until its condition holds -/
+
+/-- the decision of `waitUntil` after one evaluation of its condition: only `true` ends the wait; `false`
+evaluates the condition again after a suspension of 10 ms, without any diagnostic -/
+theorem C12_waitUntil_decides (count : Nat) (m : M) :
+    (behDecide (.waitUntil count) (some (.bool true)) m).2.2.1 = .ok ∧
+    (behDecide (.waitUntil count) (some (.bool false)) m).2.2.1 = .seekStart ∧
+    (behDecide (.waitUntil count) (some (.bool false)) m).1 = [.suspend 10, .clearV, .setVars []] ∧
+    (behDecide (.waitUntil count) (some (.bool false)) m).2.1 = .waitUntil (count + 1) := by
+  simp [behDecide]
+
+/-- a value that is no boolean never ends the wait either -/
+theorem C12_waitUntil_other (count : Nat) (v : Val) (m : M) (hv : ∀ b, v ≠ .bool b) :
+    (behDecide (.waitUntil count) (some v) m).2.2.1 = .seekStart := by
+  cases v with
+  | bool b => exact absurd rfl (hv b)
+  | _ => simp [behDecide]
 
 /-! ## Non-vacuity -/
 
